@@ -153,6 +153,8 @@ type VC struct {
 	ldCache     map[string][]string
 	atCallSeen  map[string]int
 	atInstr     ssa.Instruction // the call an at-call assertion is being evaluated at
+	sumFns      map[string]string // (lower bound | body term) -> sum function symbol
+	ldDefs      map[string]string // ld_N -> the load term it names
 	closureArgs map[ssa.Value]closureRef
 	bindVC      *VC // where the bindings of the closure being inlined are evaluated
 	logSkip     map[ssa.Instruction]bool
@@ -238,6 +240,13 @@ func (vc *VC) note(s string) { vc.root().notes[s] = true }
 func (vc *VC) define(base, sort, term string) string {
 	n := vc.declare(vc.fresh(base), sort)
 	vc.assume(eq(n, term))
+	if !strings.HasPrefix(sort, "(Array") && !strings.HasPrefix(sort, "H") && sort != "Bool" {
+		r := vc.root()
+		if r.ldDefs == nil {
+			r.ldDefs = map[string]string{}
+		}
+		r.ldDefs[n] = term // value definitions: used to canonicalise terms (eval_sum.go)
+	}
 	return n
 }
 
